@@ -20,8 +20,16 @@ Part (c), engine E4: custom types {tight / wide / no regex} x {total / partly ra
 pattern source texts} converters inside ordered pairs and triples of registrations that overlap
 only inside the typed field ("converter raises" as an outcome of the AMBIGUITY test at
 registration, not only of lookup), then dispatch of the step texts.
+
+Part (d), engine E2: histories of load_step_modules() calls in one process over generated step
+module directories (modules that switch the matcher and do or do not switch back), factory state
+and matcher class of every definition after each load, differential against a fresh process.
 """
+import atexit
 import itertools
+import os
+import shutil
+import tempfile
 from vlib.core import digest
 
 PROPERTY = "C11"
@@ -54,7 +62,16 @@ RULE = ("(a) patterns = token sequences of length 1-3 (thorough: also length 4 o
         "reference: a definition matches a text iff the field languages accept a cut of it AND every converter "
         "succeeds; AmbiguousStep iff an existing definition really matches the new pattern text; then 11 step texts "
         "x {given, when} are looked up and run. Non-trivial there = a registration that is unambiguous only because "
-        "a converter raises, or a lookup with a raising converter in front of the expected definition.")
+        "a converter raises, or a lookup with a raising converter in front of the expected definition. "
+        "(d) module-loading histories: every sequence of 1-3 behave.runner_util.load_step_modules() calls in ONE "
+        "process over generated step directories of 1-3 modules with <= 3 (quick) / <= 5 (thorough) modules in total, "
+        "each module one of {no switch, use_step_matcher(re|cfparse) + definition + back to parse + definition, "
+        "definition + use_step_matcher(re|cfparse) + definition WITHOUT switching back}, x project default chosen up "
+        "front {nothing, use_step_matcher(re|cfparse), use_default_step_matcher(re|cfparse)}; after every load the "
+        "factory's current and default matcher must be the project default, every new definition must have been "
+        "built by the matcher in force at that point of its module, each definition is dispatched with a typed "
+        "instance and with its pattern source text, and every later load is repeated alone in a fresh state and "
+        "must register the same definitions (differential). Non-trivial there = at least one module switches.")
 ASSUMPTIONS = [
     "field values, literals and prefixes/suffixes are ASCII without 0x/0b/0o prefixes; the languages of {:d} and "
     "{:f} include an optional sign out of '+', '-', ' ' (parse's format-spec sign set; a blank sign only arises "
@@ -73,6 +90,10 @@ ASSUMPTIONS = [
     "its converter raises: the statement does not say whether that candidate surfaces as a match-with-error or the "
     "search goes on; accepted = the match-with-error (run() raises, no function called) or the really matching "
     "definition with the right arguments (part c)",
+    "module loading (part d) goes through behave.runner_util.load_step_modules(), which registers into the "
+    "process-wide behave.step_registry.registry: that registry is cleared at the start and end of every case; the "
+    "protocol taken as documented: every module starts with the project default (= the matcher current when "
+    "load_step_modules() is entered) and the current matcher is the project default again after the load",
     "cucumber expressions (behave.cucumber_expression) are not one of the four matcher kinds and are not covered",
 ]
 
@@ -1079,6 +1100,197 @@ def convreg_cases(sizes):
                             yield (kind, rk, ck, tuple(zip(pats, fs)))
 
 
+# =============================================================================
+# part (d): module-loading histories - sequences of load_step_modules() calls in one process
+# =============================================================================
+# module kinds: N = never switches; B<k> = use_step_matcher(k), one definition, use_step_matcher("parse"), one
+# definition; S<k> = one definition, use_step_matcher(k), one definition, does NOT switch back
+MODULE_KINDS = ("N", "Bre", "Bcfparse", "Sre", "Scfparse")
+UPFRONTS = (None, ("use", "re"), ("use", "cfparse"), ("default", "re"), ("default", "cfparse"))
+_ROOT = [None]
+
+
+def modules_root():
+    """scratch directory for the generated step modules (created by the driver before the workers are forked and
+    removed at the end of run(); created on demand and removed at exit in a --replay process)"""
+    if _ROOT[0] is None or not os.path.isdir(_ROOT[0]):
+        base = "/dev/shm" if os.path.isdir("/dev/shm") else None
+        _ROOT[0] = tempfile.mkdtemp(prefix="c11-stepmodules-", dir=base)
+        atexit.register(shutil.rmtree, _ROOT[0], True)
+    return _ROOT[0]
+
+
+def module_source(tag, kind):
+    def definition(suffix):
+        name = "%s%s" % (tag, suffix)
+        return ("@given(u'%s takes {n:d}')\ndef %s(context, *args, **kwargs):\n"
+                "    context.calls.append(('%s', args, kwargs))\n\n" % (name, name, name))
+    if kind == "N":
+        return definition("a")
+    k = kind[1:]
+    if kind[0] == "B":
+        return "use_step_matcher('%s')\n\n%suse_step_matcher('parse')\n\n%s" % (k, definition("a"), definition("b"))
+    return "%suse_step_matcher('%s')\n\n%s" % (definition("a"), k, definition("b"))
+
+
+def module_plan(j, kinds, project_default):
+    """reference (documented protocol): every module starts with the project default -> [(function, matcher kind)]"""
+    plan = []
+    for i, kind in enumerate(kinds):
+        tag = "m%d%d" % (j + 1, i + 1)
+        if kind == "N":
+            plan.append((tag + "a", project_default))
+        elif kind[0] == "B":
+            plan += [(tag + "a", kind[1:]), (tag + "b", "parse")]
+        else:
+            plan += [(tag + "a", project_default), (tag + "b", kind[1:])]
+    return plan
+
+
+def module_dir(j, kinds):
+    """directory with the step modules of the j-th load (file names sort in module order); written atomically"""
+    d = os.path.join(modules_root(), "load%d-%s" % (j + 1, "-".join(kinds)))
+    if not os.path.isdir(d):
+        tmp = tempfile.mkdtemp(prefix="tmp-", dir=modules_root())
+        for i, kind in enumerate(kinds):
+            with open(os.path.join(tmp, "steps_%d_%s.py" % (i + 1, kind)), "w") as f:
+                f.write(module_source("m%d%d" % (j + 1, i + 1), kind))
+        try:
+            os.rename(tmp, d)
+        except OSError:             # another worker was faster: same content
+            shutil.rmtree(tmp, True)
+    return d
+
+
+def modules_case(case):
+    """case = (upfront, (kinds of load 1, kinds of load 2, ...)).  All loads in ONE process state (factory and the
+    global step registry are reset only at the start), observation after every load; then dispatch; then every
+    later load once more alone in a fresh state (differential oracle)."""
+    if not _B:
+        init_worker()
+    from behave import step_registry
+    from behave.runner_util import load_step_modules
+    upfront, loads = case
+    kn = _B["kindname"]
+    fac = _B["matchers"].get_step_matcher_factory()
+    greg = step_registry.registry
+    D = upfront[1] if upfront else "parse"
+
+    def fresh():
+        reset_state()
+        greg.clear()
+        if upfront:
+            if upfront[0] == "use":
+                _B["behave"].use_step_matcher(upfront[1])
+            else:
+                _B["behave"].use_default_step_matcher(upfront[1])
+
+    def definitions():
+        return [(m.func.__name__, kn.get(type(m), type(m).__name__)) for t in TYPES for m in greg.steps[t]]
+
+    def load(j, kinds):
+        have = set(n for (n, _) in definitions())
+        try:
+            load_step_modules([module_dir(j, kinds)])
+            exc = None
+        except Exception as e:          # noqa
+            exc = "%s: %s" % (type(e).__name__, e)
+        return exc, [d for d in definitions() if d[0] not in have], kn.get(fac.current_matcher), kn.get(fac.default_matcher)
+
+    v, dg = [], []
+    setting = "project default %s, loads %r" % (
+        "parse (nothing chosen)" if not upfront else "%s (via %s)" % (
+            D, "use_step_matcher" if upfront[0] == "use" else "use_default_step_matcher"), loads)
+    fresh()
+    contributed = []
+    leak_opportunity = False
+    for j, kinds in enumerate(loads):
+        which = "first" if j == 0 else "later"
+        where = "%s: after load_step_modules() #%d of modules %r" % (setting, j + 1, kinds)
+        exc, new, cur, dflt = load(j, kinds)
+        want = module_plan(j, kinds, D)
+        contributed.append(new)
+        dg.append((exc, new, cur, dflt))
+        if j > 0 and loads[j - 1][-1][0] == "S":
+            leak_opportunity = True
+        if exc:
+            v.append(({"subcheck": "modules.load", "clause": "load-raised", "load": which}, "%s: %s" % (where, exc)))
+        if cur != D:
+            v.append(({"subcheck": "modules.factory", "clause": "current-matcher-not-reset-after-load", "load": which,
+                       "last_module": kinds[-1][0]},
+                      "%s the current matcher is %r, expected the project default %r" % (where, cur, D)))
+        if dflt != D:
+            v.append(({"subcheck": "modules.factory", "clause": "default-matcher-changed-by-load", "load": which},
+                      "%s the default matcher is %r, expected the project default %r" % (where, dflt, D)))
+        if sorted(n for (n, _) in new) != sorted(n for (n, _) in want):
+            v.append(({"subcheck": "modules.registration", "clause": "definitions-missing-or-extra", "load": which},
+                      "%s registered %r, expected %r" % (where, new, want))
+                     )
+        else:
+            got = dict(new)
+            for (n, k) in want:
+                if got[n] != k:
+                    v.append(({"subcheck": "modules.registration", "clause": "definition-built-by-wrong-matcher",
+                               "load": which, "expected": k},
+                              "%s definition %s was built by matcher %r, but %r was in force at that point of its "
+                              "module" % (where, n, got[n], k)))
+    # -- dispatch: a parse/cfparse definition binds 'X takes 7' with n=7, a re definition binds 'X takes {n:d}'
+    ctxobj = _B["ctx"]
+    for j, kinds in enumerate(loads):
+        for (n, k) in module_plan(j, kinds, D):
+            for text, binds, kw in (("%s takes 7" % n, k != "re", (("n", "int:7"),)),
+                                    ("%s takes {n:d}" % n, k == "re", ())):
+                m = greg.find_match(_B["Step"]("c11.feature", 1, u"Given", "given", text))
+                ctxobj.calls = []
+                got = None
+                if m is not None:
+                    try:
+                        m.run(ctxobj)
+                        got = [(c[0], c[1], tuple(sorted((a, typed(b)) for a, b in c[2].items()))) for c in ctxobj.calls]
+                    except Exception as e:      # noqa
+                        got = "run raised %s" % type(e).__name__
+                dg.append((text, got))
+                want = [(n, (), kw)] if binds else None
+                if got != want:
+                    v.append(({"subcheck": "modules.dispatch", "clause": "binding-differs",
+                               "load": "first" if j == 0 else "later", "definition_matcher": k,
+                               "text": "typed-instance" if text.endswith("7") else "pattern-source"},
+                              "%s: step %r -> %r, expected %r (definition %s belongs to matcher %r)"
+                              % (setting, text, got, want, n, k)))
+    # -- differential: a later load registers in a used process exactly what it registers in a fresh one
+    for j, kinds in enumerate(loads):
+        if j == 0:
+            continue
+        fresh()
+        exc, new, cur, dflt = load(j, kinds)
+        dg.append(("fresh", j, exc, new, cur, dflt))
+        if new != contributed[j]:
+            v.append(({"subcheck": "modules.registration", "clause": "later-load-differs-from-fresh-process"},
+                      "%s: load #%d of %r registered %r in the used process, but %r when it is the first load of a "
+                      "fresh process" % (setting, j + 1, kinds, contributed[j], new)))
+    reset_state()
+    greg.clear()
+    nmod = sum(len(k) for k in loads)
+    return {"v": v, "dg": dg, "n": len(loads) + max(0, len(loads) - 1),
+            "nt": case if any(k != "N" for ks in loads for k in ks) else None,
+            "out": ("modules", upfront[0] if upfront else "none", len(loads), nmod,
+                    "leak-opportunity" if leak_opportunity else "")}
+
+
+def modules_cases(max_modules):
+    """all sequences of 1-3 loads of 1-3 modules with <= max_modules modules in total, smallest first"""
+    shapes = [sh for n in (1, 2, 3) for sh in itertools.product((1, 2, 3), repeat=n) if sum(sh) <= max_modules]
+    shapes.sort(key=lambda sh: (sum(sh), len(sh), sh))
+    for sh in shapes:
+        for kinds in itertools.product(MODULE_KINDS, repeat=sum(sh)):
+            loads, pos = [], 0
+            for n in sh:
+                loads.append(tuple(kinds[pos:pos + n]))
+                pos += n
+            for up in UPFRONTS:
+                yield (up, tuple(loads))
+
+
 def bfs(ctx, alpha, depth, name, dedup=True):
     """one ctx.sweep per level; returns (hashes of the canonical states up to depth-1, number of expanded states,
     hashes of the states first reached at the last level).  Canonical states are compared through their 64-bit
@@ -1116,6 +1328,14 @@ def bfs(ctx, alpha, depth, name, dedup=True):
 
 
 def run(ctx):
+    root = modules_root()       # before the first sweep forks the workers: they inherit the path
+    try:
+        _run(ctx)
+    finally:
+        shutil.rmtree(root, True)
+
+
+def _run(ctx):
     init_worker()
     # ---------------------------------------------------------------- (a) matching
     ctx.sweep(match_case, match_cases(KIND_TOKENS, (1, 2, 3)), chunk=8, name="matching: token sequences 1-3")
@@ -1153,6 +1373,16 @@ def run(ctx):
     ctx.guard(any(o[3] == "error-shadows" for o in couts), "lookup where a raising converter is in front exercised")
     ctx.guard(any(any(e == "silent" for (e, _) in o[2]) for o in couts) and
               any(any(e == "ignored" for (e, _) in o[2]) for o in couts), "silent and ignored registrations exercised")
+    # ---------------------------------------------------------------- (d) module-loading histories
+    maxmod = 3 if ctx.quick else 5
+    ctx.sweep(modules_case, modules_cases(maxmod), chunk=32,
+              name="module loading: 1-3 load_step_modules() calls, <= %d modules" % maxmod)
+    mouts = [o for o in ctx.outcomes if isinstance(o, tuple) and o and o[0] == "modules"]
+    ctx.guard(set(o[1] for o in mouts) == {"none", "use", "default"}, "all ways of choosing the project default exercised")
+    ctx.guard(any(o[2] == 3 for o in mouts) and any(o[4] == "leak-opportunity" for o in mouts),
+              "three loads in one process and a load that follows a load whose last module does not switch back")
+    bounds_modules = {"loads_per_process": 3, "modules_per_load": 3, "modules_in_total": maxmod,
+                      "module_kinds": len(MODULE_KINDS), "project_default_choices": len(UPFRONTS)}
     # ---------------------------------------------------------------- (b) histories
     depth = 3 if ctx.quick else 4
     seen, expanded, last = bfs(ctx, "small", depth, "histories[42 ops]")
@@ -1174,6 +1404,7 @@ def run(ctx):
                   "to depth 3 (%d vs %d)" % (len(reached_n), len(seen)))
         ctx.guard(set(ctx.vcount) == before, "search without deduplication finds no additional violation class")
         ctx.note("no_dedup_histories_expanded", exp_n)
+    bounds["module_loading"] = bounds_modules
     ctx.bounds = bounds
     hist_outs = set(o for o in ctx.outcomes if o and o[0] == "history")
     for need in ("ignored", "ambiguous", "added", "silent", "M", "B", "D"):
